@@ -24,26 +24,33 @@ fn gen_text(len: usize, seed: u64) -> Vec<u8> {
 }
 
 struct Tracker {
-    buffers_seen: Vec<(usize, usize)>, // (address, capacity) at creation
+    /// every backing buffer ever seen: address -> capacity at creation.  Buffers are identified by
+    /// their ADDRESS (the index in the interner's list is an implementation detail: a new buffer may
+    /// be filed anywhere in it)
+    buffers_seen: HashMap<usize, usize>,
     problems: Vec<String>,
 }
 
 impl Tracker {
     fn observe(&mut self, bufs: &[(usize, usize, usize)]) {
         for (i, (addr, cap, len)) in bufs.iter().enumerate() {
-            if i < self.buffers_seen.len() {
-                if self.buffers_seen[i] != (*addr, *cap) {
-                    self.problems.push(format!("buffer {i} moved or resized"));
+            match self.buffers_seen.get(addr) {
+                Some(c) if c != cap => self.problems.push(format!("buffer at {i} resized (capacity {c} -> {cap})")),
+                Some(_) => {}
+                None => {
+                    self.buffers_seen.insert(*addr, *cap);
                 }
-            } else {
-                self.buffers_seen.push((*addr, *cap));
             }
             if len > cap {
                 self.problems.push(format!("buffer {i} len>cap"));
             }
         }
-        if bufs.len() < self.buffers_seen.len() {
-            self.problems.push("buffer dropped".into());
+        // a buffer that held interned data must still be there, at the same address
+        for addr in self.buffers_seen.keys() {
+            if !bufs.iter().any(|(a, _, _)| a == addr) {
+                self.problems.push("a backing buffer moved or was dropped".into());
+                break;
+            }
         }
     }
     fn locate(&mut self, bufs: &[(usize, usize, usize)], raw: (usize, usize)) -> String {
@@ -68,8 +75,9 @@ impl Tracker {
 pub fn run(args: &[&str]) -> String {
     let kind = args[0];
     let ops: Vec<&str> = args[1].split(';').filter(|o| !o.is_empty()).collect();
-    let mut tr = Tracker { buffers_seen: Vec::new(), problems: Vec::new() };
+    let mut tr = Tracker { buffers_seen: HashMap::new(), problems: Vec::new() };
     let mut outs: Vec<String> = Vec::new();
+    let mut raws: Vec<(usize, usize)> = Vec::new();
     let bufs_final: Vec<(usize, usize, usize)>;
     match kind {
         "str" | "path" => {
@@ -101,6 +109,7 @@ pub fn run(args: &[&str]) -> String {
                 };
                 tr.observe(&bufs);
                 outs.push(tr.locate(&bufs, raw));
+                raws.push(raw);
                 // same text => same handle, different text => different handle
                 match reference.get(&text) {
                     Some(prev) => {
@@ -192,6 +201,7 @@ pub fn run(args: &[&str]) -> String {
                 let bufs = mi.verif_buffers();
                 tr.observe(&bufs);
                 outs.push(tr.locate(&bufs, h.verif_raw()));
+                raws.push(h.verif_raw());
                 // `eq(expected, handle)` must say exactly what interning `expected` and comparing handles says
                 for (i, (ph, _)) in handles.iter().enumerate() {
                     if mi.eq_some(&pairs, *ph) != (*ph == h) {
@@ -234,5 +244,7 @@ pub fn run(args: &[&str]) -> String {
     }
     let bufs: Vec<String> = bufs_final.iter().map(|(_, c, l)| format!("{c}:{l}")).collect();
     let check = if tr.problems.is_empty() { "ok".to_string() } else { tr.problems[0].clone() };
-    format!("{}\t{}\tCHECK {}", outs.join(" "), bufs.join(","), check)
+    // canonical form of the run: for every operation the first operation that returned the same handle
+    let same: Vec<String> = raws.iter().enumerate().map(|(k, r)| format!("{}", raws.iter().position(|q| q == r).unwrap_or(k))).collect();
+    format!("{}\t{}\tCHECK {}\tSAME {}", outs.join(" "), bufs.join(","), check, same.join(","))
 }
